@@ -25,6 +25,7 @@ def run(ck, F, tier):
     ck.rule("Y2", "inserts copy rows of input column s into column k or m-n+j of a same-sized matrix; k += 1 once per free column")
     ck.rule("Y3", "error values are returned under exactly the documented conditions")
     ck.rule("Y4", "every row operation of the elimination spans the row from the pivot column to the last column")
+    ck.rule("Y5", "the encoder that must accept the result: row operations, pivot range, pivot search and pivot exchange of linalg::gauss_reduction (the rule C02-S5, run here)")
     ck.assume("domain of the property: at least one row")
     H = var("h")
     Rr, Cc = app(SM + "num_rows", H), app(SM + "num_cols", H)
@@ -174,4 +175,7 @@ def run(ck, F, tier):
             "row_echelon_form(&mut a) is the top-level statement %s; NotFullRank can first be returned by statement %s (the test must read the reduced array)" % (i_ech, i_nfr[:1]))
     from ..linalg_rules import row_operation_width
     row_operation_width(ck, F, "Y4", "linalg::row_echelon_form", floor=2)
+    # "the systematic encoder always accepts the result" also rests on the encoder's own elimination reading its pivots correctly
+    from ..report import RuleAlias
+    row_operation_width(RuleAlias(ck, "Y5"), F, "S5", "linalg::gauss_reduction")
     ck.inst("Y3", "no-other-error", set(seen) <= {"ParityOverdetermined", "NotFullRank"}, F.body(FN).span, "only the two documented errors are returned early")
